@@ -775,6 +775,16 @@ DIRECTED = {
         "t.go": 'package main\n\ntype Store interface{ Get() string }\ntype Impl struct{ S string }\n\nfunc (i *Impl) Get() string { return i.S }\nfunc NewImpl() *Impl { return &Impl{S: "impl"} }\n\ntype App struct{ S Store }\n\nfunc NewApp(s Store) *App { return &App{S: s} }\n\ntype Report struct{ I *Impl }\n\nfunc NewReport(i *Impl) *Report { return &Report{I: i} }\n',
         "main.go": 'package main\n\nfunc main() { println(InitApp().S.Get(), InitReport().I.S) }\n',
         "wire.go": '//go:build wireinject\n\npackage main\n\nimport "github.com/google/wire"\n\nvar StoreSet = wire.NewSet(NewImpl, wire.Bind(new(Store), new(*Impl)))\n\nfunc InitApp() *App {\n\twire.Build(StoreSet, NewApp)\n\treturn nil\n}\n\nfunc InitReport() *Report {\n\twire.Build(NewImpl, NewReport)\n\treturn nil\n}\n'},
+    # wire.Struct("*") leaves fields tagged `wire:"-"` alone (repaired)
+    "struct_wire_dash_tag": {
+        "t.go": 'package main\n\ntype Host string\ntype Port int\ntype Secret string\n\ntype Config struct {\n\tHost   Host\n\tPort   Port\n\tSecret Secret `wire:"-"`\n}\n\nfunc ProvideHost() Host     { return "h" }\nfunc ProvidePort() Port     { return 80 }\nfunc ProvideSecret() Secret { return "s3" }\n\ntype App struct {\n\tC *Config\n\tS Secret\n}\n\nfunc NewApp(c *Config, s Secret) *App { return &App{c, s} }\n',
+        "main.go": 'package main\n\nfunc main() { a := InitApp(); println(string(a.C.Host), int(a.C.Port), "[" + string(a.C.Secret) + "]", string(a.S)) }\n',
+        "wire.go": '//go:build wireinject\n\npackage main\n\nimport "github.com/google/wire"\n\nfunc InitApp() *App {\n\twire.Build(ProvideHost, ProvidePort, ProvideSecret, wire.Struct(new(Config), "*"), NewApp)\n\treturn nil\n}\n'},
+    # wire.Struct(new(T)) without field names fills no field (repaired: it was migrated as "*")
+    "struct_no_field_names": {
+        "t.go": 'package main\n\ntype Host string\n\ntype Config struct{ Host Host }\n\nfunc ProvideHost() Host { return "h" }\n\ntype App struct {\n\tC *Config\n\tH Host\n}\n\nfunc NewApp(c *Config, h Host) *App { return &App{c, h} }\n',
+        "main.go": 'package main\n\nfunc main() { a := InitApp(); println("[" + string(a.C.Host) + "]", string(a.H)) }\n',
+        "wire.go": '//go:build wireinject\n\npackage main\n\nimport "github.com/google/wire"\n\nfunc InitApp() *App {\n\twire.Build(ProvideHost, wire.Struct(new(Config)), NewApp)\n\treturn nil\n}\n'},
     "interface_value_nested_selector": {
         "streams/streams.go": 'package streams\n\nimport "bytes"\n\nvar Std = struct{ Out *bytes.Buffer }{Out: bytes.NewBufferString("buf")}\n',
         "t.go": 'package main\n\nimport "fmt"\n\ntype App struct{ S string }\n\nfunc NewApp(w fmt.Stringer) *App { return &App{S: w.String()} }\n',
